@@ -16,19 +16,21 @@ import (
 )
 
 type G struct {
-	exact bool // addresses exactly as wide as their fields (for field-by-field round trips)
-	r     *Rng
-	names []string
-	kinds map[string]int // element kinds used in the current case
-	swXid    uint32
-	swRecipe string      // Gallina term of the last switch-side value ("" when it has no recipe model)
-	late  []func()       // nested actions a conntrack action still has to receive, after it was handed to its container
+	exact      bool // addresses exactly as wide as their fields (for field-by-field round trips)
+	r          *Rng
+	names      []string
+	kinds      map[string]int // element kinds used in the current case
+	swXid      uint32
+	swRecipe   string   // Gallina term of the last switch-side value ("" when it has no recipe model)
+	late       []func() // nested actions a conntrack action still has to receive, after it was handed to its container
+	deferFlush int      // > 0: flushLate is postponed (the bundle-add builder completes the inner message after wrapping it)
+	forceKind  int      // >= 0: the next message() builds this kind
 }
 
 func NewG(r *Rng) *G {
 	n := of.VerifRegistryNames()
 	sort.Strings(n)
-	return &G{r: r, names: n, kinds: map[string]int{}}
+	return &G{r: r, names: n, kinds: map[string]int{}, forceKind: -1}
 }
 
 func (g *G) use(k string) { g.kinds[k]++ }
@@ -37,6 +39,9 @@ func (g *G) use(k string) { g.kinds[k]++ }
 // been added to its instruction / bucket / packet-out / enclosing conntrack action.  The
 // recipe is the same as for the bottom-up order: the encoding must not depend on the order.
 func (g *G) flushLate() {
+	if g.deferFlush > 0 { // an enclosing builder wants the value wrapped (and sized) before it is completed
+		return
+	}
 	for len(g.late) > 0 {
 		f := g.late[0]
 		g.late = g.late[1:]
@@ -75,11 +80,11 @@ func (g *G) ip4() (net.IP, []byte) {
 // ------------------------------------------------------------------ match fields
 
 type mfCtor struct {
-	code   int
-	width  int
-	fl     int // 0 uint, 1 bytes, 2 ip4, 3 vlan
-	mask   bool
-	mk     func(g *G, v uint64, vb []byte, ip net.IP, hasMask bool, m uint64, mb []byte, mip net.IP) *of.MatchField
+	code  int
+	width int
+	fl    int // 0 uint, 1 bytes, 2 ip4, 3 vlan
+	mask  bool
+	mk    func(g *G, v uint64, vb []byte, ip net.IP, hasMask bool, m uint64, mb []byte, mip net.IP) *of.MatchField
 }
 
 func hw(b []byte) net.HardwareAddr { return net.HardwareAddr(b) }
@@ -399,6 +404,13 @@ func (g *G) action(depth int) (of.Action, string) {
 	case 8:
 		f, t := g.mf()
 		g.use("act:set-field")
+		if g.r.Intn(5) == 0 { // built around another field first, then given its field through the exported member
+			other, _ := g.mf()
+			a := of.NewActionSetField(*other)
+			a.Field = *f
+			g.use("history:set-field-reassigned")
+			return a, "(ASetField " + t + ")"
+		}
 		return of.NewActionSetField(*f), "(ASetField " + t + ")"
 	case 9:
 		c, nc, id := uint8(g.r.Bits(8)), uint8(g.r.Bits(8)), uint32(g.r.Bits(32))
@@ -443,15 +455,30 @@ func (g *G) action(depth int) (of.Action, string) {
 			hold = 1 + g.r.Intn(nk)
 			g.use("history:late-growth")
 		}
+		variadic := hold == 0 && nk > 0 && g.r.Intn(4) == 0
+		list := make([]of.Action, 0, nk+3) // the caller's own slice, with room to spare
 		for i := 0; i < nk; i++ {
 			ka, kt := g.action(depth - 1)
-			if i >= nk-hold {
+			if variadic {
+				list = append(list, ka)
+			} else if i >= nk-hold {
 				late := ka
 				g.late = append(g.late, func() { a.AddAction(late) })
 			} else {
 				a.AddAction(ka)
 			}
 			kids = append(kids, kt)
+		}
+		if variadic {
+			// all nested actions in one call from the caller's slice, which the caller then goes on using:
+			// the action must have taken the elements, not the slice
+			a.AddAction(list...)
+			for i := range list {
+				list[i] = of.NewActionGroup(0xdeadbeef)
+			}
+			list = append(list, of.NewActionDecNwTtl())
+			_ = list
+			g.use("history:ct-variadic-slice-reused")
 		}
 		g.use("act:nx-ct")
 		return a, fmt.Sprintf("(ACT %s %d %s)", listT(sets), alg, listT(kids))
@@ -640,6 +667,13 @@ func (g *G) action(depth int) (of.Action, string) {
 	case 22:
 		f, t := g.mf()
 		g.use("act:nx-reg-load2")
+		if g.r.Intn(5) == 0 { // the destination field replaced after construction
+			other, _ := g.mf()
+			a := of.NewNXActionRegLoad2(other)
+			a.DstField = f
+			g.use("history:reg-load2-reassigned")
+			return a, "(ARegLoad2 " + t + ")"
+		}
 		return of.NewNXActionRegLoad2(f), "(ARegLoad2 " + t + ")"
 	case 23:
 		id, ml, r := uint16(g.r.Bits(16)), uint16(g.r.Bits(16)), uint8(g.r.Bits(8))
@@ -766,6 +800,10 @@ func (g *G) matchInto(m *of.Match, mean, cap int) string {
 // message returns the built message, the recipe term, a kind name and the xid read back
 func (g *G) message(depth int) (util.Message, string, string, uint32) {
 	k := g.r.Intn(17)
+	if g.forceKind >= 0 { // the caller wants this message kind (once)
+		k = g.forceKind
+		g.forceKind = -1
+	}
 	if depth <= 0 && k == 16 {
 		k = 3
 	}
@@ -856,6 +894,10 @@ func (g *G) message(depth int) (util.Message, string, string, uint32) {
 			return p, fmt.Sprintf("(MPacketOut %d %d %s None)", buf, ip, listT(ts)), "packet-out/no-data", p.Xid
 		}
 		data := g.r.Bytes(g.r.Geom(30, 300))
+		if g.r.Intn(4) == 0 { // the payload set twice: the second call replaces the first
+			p.SetData(g.r.Bytes(1 + g.r.Intn(40)))
+			g.use("history:set-data-twice")
+		}
 		p.SetData(data)
 		return p, fmt.Sprintf("(MPacketOut %d %d %s (Some %s))", buf, ip, listT(ts), bterm(data)), "packet-out", p.Xid
 	case 11:
@@ -927,9 +969,24 @@ func (g *G) message(depth int) (util.Message, string, string, uint32) {
 		v := of.NewBundleControl(bc)
 		return v, fmt.Sprintf("(MBundleCtrl %d %d %d)", bc.BundleID, bc.Type, bc.Flags), "bundle-control", v.Header.Xid
 	default:
+		g.deferFlush++
 		inner, it, ik, ixid := g.message(depth - 1)
+		g.deferFlush--
 		ba := &of.BundleAdd{BundleID: uint32(g.r.Bits(32)), Flags: uint16(g.r.Intn(4)), Message: inner}
 		v := of.NewBundleAdd(ba)
+		if len(g.late) > 0 && g.deferFlush == 0 {
+			// the embedded message still has nested actions to receive: the bundle is sized (and sometimes
+			// encoded) around the incomplete message first - it must not remember anything of that
+			func() {
+				defer func() { recover() }()
+				v.Len()
+				if g.r.Bool() {
+					v.MarshalBinary()
+				}
+			}()
+			g.use("history:bundle-sized-before-complete")
+		}
+		g.flushLate()
 		return v, fmt.Sprintf("(MBundleAdd %d %d %d %s)", ba.BundleID, ba.Flags, ixid, it), "bundle-add(" + ik + ")", v.Header.Xid
 	}
 }
